@@ -18,6 +18,10 @@ def metamorphic():
     for (lat, lon, gmt) in ((30.0, 31.0, 2.0), (-40.0, -60.0, -4.0), (44.0, 100.0, 7.0)):
         for d in ("2023-03-21", "2023-06-21", "2023-12-31", "2024-02-29", "1600-07-01"):
             base_cases.append((lat, lon, gmt, d))
+    # clock zones far from the solar zone (|gmt - lon/15| up to 12 h): Shurooq, Dhuhr or Maghrib falls next to civil midnight there
+    for (lat, lon, gmt) in ((40.0, 0.0, -7.0), (40.0, 0.0, 6.0), (30.0, 31.0, -10.0), (-35.0, 150.0, -3.0), (10.0, -100.0, 11.0)):
+        for d in ("2023-02-15", "2023-10-25", "2024-06-21"):
+            base_cases.append((lat, lon, gmt, d))
     def mk(lat, lon, gmt, d):
         return {"api": "prayer_times_dt", "lat": lat, "lon": lon, "gmt": gmt, "date": d, "params": {"method": "Isna", "round": "None", "ext": "None"}}
     a = replay.run([mk(*b) for b in base_cases])
@@ -33,7 +37,21 @@ def metamorphic():
                     out.append(("tz-validity", "validity of %s changes under %s at %s" % (p, what, bc), [mk(*bc)], {"a": t, "b": t2}))
                 elif t is not None:
                     dlt = (t2["secs"] - t["secs"] - shift + 43200) % 86400 - 43200
-                    if abs(dlt) > 11:
+                    # recorded finding `civil-date-wrap`: Shurooq, Dhuhr and Maghrib are each the event that falls within the civil
+                    # date (day fraction normalised into [0,1) separately), so when the shift carries one of them across civil
+                    # midnight the reported event is the one of the neighbouring solar day (day-to-day change, up to ~2.5 min at
+                    # |lat| <= 45); Fajr, Asr, Isha and Imsaak are tied to Dhuhr and jump with it. Precondition checked here: the
+                    # event (or Dhuhr, for the four tied to it) crosses civil midnight between the two calls and the jump is no more
+                    # than a day-to-day change - anything else is a new violation.
+                    def crosses(q):
+                        a_, b_ = x["times"].get(q), other["times"].get(q)
+                        return a_ is not None and b_ is not None and abs(b_["secs"] - a_["secs"] - shift) > 43200
+                    own = p if p in ("Shurooq", "Dhuhr", "Maghrib") else "Dhuhr"
+                    if abs(dlt) > 11 and shift != 0 and crosses(own) and abs(dlt) <= 200:
+                        out.append(("civil-date-wrap", "changing only the GMT offset from %s to %s at lat %s lon %s on %s moves %s by 1 h %+d s: %s crosses "
+                                    "civil midnight and the library then reports the event of the neighbouring solar day" % (bc[2], bc[2] + 1.0, bc[0], bc[1], bc[3], p, dlt, own),
+                                    [mk(*bc), mk(bc[0], bc[1], bc[2] + 1.0, bc[3])], {"a": t, "b": t2}))
+                    elif abs(dlt) > 11:
                         out.append(("tz-shift", "%s moves by %+d s beyond the expected shift under %s at %s" % (p, dlt, what, bc),
                                     [mk(*bc), mk(bc[0], bc[1] + (15.0 if shift == 0 else 0.0), bc[2] + 1.0, bc[3])], {"a": t, "b": t2}))
     return out
@@ -50,17 +68,19 @@ def run(rep):
     if any((x["cands"] or x["inconclusive"]) for x in results if x["name"].startswith("hour_to_time")):
         from . import c11
         c11.confirm_rounding(rep, results)
+    found = {}
+    for key, desc, case, obs in metamorphic():          # always: the far-zone cases carry the recorded finding civil-date-wrap
+        found.setdefault(key, []).append((desc, case, obs))
+    for key, items in found.items():
+        rep.violation(key, items[0][0] + " (+%d more)" % (len(items) - 1), items[0][1], items[0][2])
+    found.pop("civil-date-wrap", None)
     if any((x["cands"] or x["inconclusive"]) for x in results) or rep.tier == "thorough":
-        found = {}
-        for key, desc, case, obs in metamorphic():
-            found.setdefault(key, []).append((desc, case, obs))
-        for key, items in found.items():
-            rep.violation(key, items[0][0] + " (+%d more)" % (len(items) - 1), items[0][1], items[0][2])
         if not found:
             c01.confirm_jd(rep, results)
-        if not found and not rep.violations:
+        nv = lambda: [v for v in rep.violations if v.key != "civil-date-wrap"]
+        if not found and not nv():
             c01.confirm(rep, [x for x in results if "JulianDay" not in x["name"]])
-            if not rep.violations and not rep.inconclusive and any(x["cands"] for x in results):
+            if not nv() and not rep.inconclusive and any(x["cands"] for x in results):
                 rep.inconclusive.append("solver counterexamples not reproduced natively")
     from . import policyprop as _pp, ephsweep
     _pp.purity_native(rep)
